@@ -161,6 +161,11 @@ pub fn generate(prop: &str, rng: &mut Rng, plan: &mut Plan, _index: u64) {
         }
         plan.knobs.batch = "faulty".into();
     }
+    if prop != "C14" && rng.chance(1, 6) {
+        // a signal handler of the application runs while the parent is blocked
+        plan.knobs.faults.eintr = Some((1 + rng.below(12) as u32, 1 + rng.below(3) as u32, *rng.pick(&[1u8, 4, 7, 7])));
+        plan.knobs.batch = "faulty".into();
+    }
     if rng.chance(1, 8) {
         // a parent with closed standard descriptors (only those no stage inherits)
         let mut mask = 0u8;
@@ -390,6 +395,8 @@ pub fn run(plan: &Plan, pp: &PipePlan) -> FamOut {
                 let mut buf = vec![0u8; 65536];
                 loop {
                     match lib("adapter.read", || rd.read(&mut buf)) {
+                        // the Read contract: an interrupted read is simply repeated by the caller
+                        Ok(Err(e)) if e.kind() == std::io::ErrorKind::Interrupted => continue,
                         Ok(Ok(0)) | Ok(Err(_)) | Err(_) => break,
                         Ok(Ok(k)) => acc.extend_from_slice(&buf[..k]),
                     }
@@ -410,6 +417,8 @@ pub fn run(plan: &Plan, pp: &PipePlan) -> FamOut {
                     let end = (off + 4096).min(input.len());
                     match lib("adapter.write", || wr.write(&input[off..end])) {
                         Ok(Ok(k)) if k > 0 => off += k,
+                        // the Write contract: an interrupted write is simply repeated by the caller
+                        Ok(Err(e)) if e.kind() == std::io::ErrorKind::Interrupted => continue,
                         _ => break,
                     }
                     if sim().poisoned.is_some() {
